@@ -39,6 +39,8 @@ def build_impl(spec):
     pts = spec['pts']
     rng = tuple(spec['range']) if spec['range'] is not None else None
     try:
+        if spec.get('via_yaml'):
+            return load_yaml(spec), 'ok'
         if spec['kind'] == 'raw':
             obj = ThermochemRawData(spec['href'], spec['sref'], [p[0] for p in pts], [p[1] for p in pts],
                                     T_ref=spec['tref'], range=rng)
@@ -50,6 +52,47 @@ def build_impl(spec):
         return obj, 'ok'
     except Exception as e:
         return None, exc_name(e)
+
+
+YAML_TAG = {'raw': '!ThermochemRawData', 'inc': '!ThermochemIncomplete', 'grp': '!ThermochemGroup'}
+
+
+def yf(x):
+    """a float as PyYAML reads a float (YAML 1.1 wants a dot in the mantissa of an exponent form)"""
+    r = repr(float(x))
+    if 'e' in r and '.' not in r.split('e')[0]:
+        m, e = r.split('e')
+        r = m + '.0e' + (e if e[0] in '+-' else '+' + e)
+    return r
+
+
+def yaml_text(spec):
+    """the correlation of `spec` as the YAML text of the class's own schema, non-dimensional keys (ND_H_ref, ND_S_ref,
+    ND_Cp_data).  The dimensional keys are the subject of C12 (what a value with units means); here the route only has to
+    deliver the numbers of the spec to the class, bit for bit."""
+    lines = ['T_ref: %s K' % yf(spec['tref'])]
+    if spec['href'] is not None:
+        lines.append('ND_H_ref: %s' % yf(spec['href']))
+    if spec['sref'] is not None:
+        lines.append('ND_S_ref: %s' % yf(spec['sref']))
+    if spec['pts']:
+        lines.append('ND_Cp_data: [%s]' % ', '.join('[%s K, %s]' % (yf(t), yf(c)) for t, c in spec['pts']))
+    if spec['range'] is not None:
+        lines.append('range: [%s K, %s K]' % (yf(spec['range'][0]), yf(spec['range'][1])))
+    return YAML_TAG[spec['kind']] + '\n' + '\n'.join(lines) + '\n'
+
+
+def load_yaml(spec):
+    """the object the package's own YAML loader builds from the text (yaml_construct of the class)"""
+    import io, sys
+    from pgradd import yaml_io
+    import pgradd.ThermoChem  # noqa: registers the classes
+    out = sys.stdout
+    sys.stdout = io.StringIO()
+    try:
+        return yaml_io.load(yaml_io.parse(yaml_text(spec)))
+    finally:
+        sys.stdout = out
 
 
 WAYS = [True, 'range', 'pre-eval', 'del-point', 'set-range', 'refs-late', 'del-refs', 'refused-update']
